@@ -111,7 +111,43 @@ func runDLServiceRace() (*dlRaceResult, error) {
 		return nil
 	})
 	defer SetDBHook(e.DSN, nil)
-	if err := runServiceOnce(e, "dead-letter", 1500*time.Millisecond); err != nil {
+	// run the service until its first commit has been seen (at most 15 s: a loaded machine), and a
+	// little longer for the rest of its round
+	svc := serviceByName("dead-letter")
+	if svc == nil {
+		return nil, fmt.Errorf("no registered service named dead-letter")
+	}
+	sctx, cancel := context.WithCancel(ctx)
+	defer cancel()
+	if err := svc.Initialize(sctx, e.Client); err != nil {
+		return nil, err
+	}
+	ready := make(chan struct{})
+	done := make(chan error, 1)
+	go func() { done <- svc.Start(sctx, ready) }()
+	select {
+	case <-ready:
+	case err := <-done:
+		return nil, fmt.Errorf("dead-letter service ended at once: %v", err)
+	case <-time.After(5 * time.Second):
+		return nil, fmt.Errorf("dead-letter service did not become ready")
+	}
+	for deadline := time.Now().Add(15 * time.Second); time.Now().Before(deadline); time.Sleep(20 * time.Millisecond) {
+		mu.Lock()
+		seen := phase == 1
+		mu.Unlock()
+		if seen {
+			break
+		}
+	}
+	time.Sleep(1500 * time.Millisecond)
+	cancel()
+	select {
+	case <-done:
+	case <-time.After(5 * time.Second):
+		return nil, fmt.Errorf("dead-letter service did not stop")
+	}
+	if err := svc.Cleanup(ctx); err != nil {
 		return nil, err
 	}
 	SetDBHook(e.DSN, nil)
